@@ -65,6 +65,21 @@ def is_uuid(s):
     return isinstance(s, str) and bool(UUID_RE.match(s))
 
 
+def uuid_like(s):
+    """What the request schemas' `format: uuid` accepts (oslo_utils.uuidutils.is_uuid_like): the
+    canonical spelling, upper case, without dashes, in braces or as a urn."""
+    import uuid
+    if not isinstance(s, str):
+        return None
+    t = s.replace('urn:', '').replace('uuid:', '').strip('{}').replace('-', '').lower()
+    try:
+        if str(uuid.UUID(s)).replace('-', '') == t:
+            return str(uuid.UUID(s))
+    except (TypeError, ValueError, AttributeError):
+        pass
+    return None
+
+
 def is_int(x):
     return isinstance(x, int) and not isinstance(x, bool)
 
@@ -602,8 +617,10 @@ class RefPlacement(object):
         if 'uuid' not in body:
             raise NotModelled('server-chosen uuid')
         u = body['uuid']
-        if not is_uuid(u):
+        if uuid_like(u) is None:
             out.reject('uuid malformed', 400)
+        else:
+            u = uuid_like(u)          # recorded (and reported) in the canonical spelling
         parent = body.get('parent_provider_uuid')
         if parent is not None and not is_uuid(parent):
             out.reject('parent_provider_uuid malformed', 400)
@@ -1312,6 +1329,10 @@ class RefPlacement(object):
             raise NotModelled('POST /allocations with no consumer')
         entries = {}
         for c, entry in body.items():
+            if is_uuid(c.lower()) and len(c) == 36:
+                # an upper-case spelling names the same consumer (PUT /allocations/{c} records
+                # every consumer under the canonical spelling)
+                c = c.lower()
             if not is_uuid(c):
                 out.schema('consumer uuid malformed')
             e = self._parse_alloc_entry(out, entry, v, False, 'entry of %s' % c)
